@@ -29,7 +29,9 @@ TECHNIQUE = ("complete enumeration of 1- and 2-operator expression cells over op
 RULE = (
     "case = a design of up to 8 expression trees (operators + - * truncdiv // % rem & | ^ ~ == != < <= > >= << >> @ "
     "x[i] x[h:l] x[run-time idx] .signed .unsigned .bitvector resize abs neg and/or/not chained comparison "
-    "if-expression select_with any/all bool() and local conversions Signal[T](x) / Temporary[T](x) / std.Value[T](x), operands Bit bool BitVector Unsigned Signed Integer enum, array "
+    "if-expression select_with any/all bool(), constant Signed/Unsigned operands folded by the tracer (plus a "
+    "Python-level exhaustive fold of every binary operator on constant Signed/Unsigned pairs of widths 1..4 x 1..4) "
+    "and local conversions Signal[T](x) / Temporary[T](x) / std.Value[T](x), operands Bit bool BitVector Unsigned Signed Integer enum, array "
     "elements, Python int literals in either position) over shared input ports; every valuation of the ports is "
     "simulated when they have <= 12 bits (enumerated cells) / <= 10 bits (random trees), else corner values and "
     "Hypothesis-drawn values; non-trivial = at least one expression with >= 1 operator and >= 1 run-time operand "
@@ -69,11 +71,12 @@ _ENUM_PLAN = {
     # name: (tier set, builder, shards quick, shards thorough)
     "op1": (lambda tier: G.cells_1op([1, 2, 3] if tier == "quick" else [1, 2, 3, 4])),
     "special": (lambda tier: G.cells_special([1, 2, 3] if tier == "quick" else [1, 2, 3, 4])
-                + G.cells_const_mix(full=tier != "quick")),
+                + G.cells_const_mix(full=tier != "quick") + G.cells_const_fold(full=tier != "quick")),
     "op2": (lambda tier: G.cells_2op([1, 2, 3], "repn") if tier == "quick" else G.cells_2op([1, 2, 3, 4], "rep")),
     "op2all": (lambda tier: G.cells_2op([1, 2], "all")),
 }
-_NSHARDS = {"quick": {"op1": 4, "special": 4, "op2": 32}, "thorough": {"op1": 8, "special": 6, "op2": 160, "op2all": 160}}
+_NSHARDS = {"quick": {"op1": 4, "special": 4, "op2": 32, "fold": 2},
+            "thorough": {"op1": 8, "special": 6, "op2": 160, "op2all": 160, "fold": 8}}
 _HYP = {"quick": (12, 32, 4, 24), "thorough": (96, 170, 24, 100)}  # narrow shards, examples each, wide shards, examples
 
 
@@ -91,6 +94,12 @@ def plan(tier):
 
 
 def enumerate(shard):  # noqa: A001 - name fixed by the module contract
+    if shard["fam"] == "fold":
+        W = (1, 2, 3, 4) if shard["tier"] == "quick" else (1, 2, 3, 4, 5, 6)
+        for i, c in _enum(G.fold_cells(W)):
+            if i % shard["mod"] == shard["rem"]:
+                yield {"fold": c}
+        return
     cases = G.pack(_ENUM_PLAN[shard["fam"]](shard["tier"]))
     for i, c in _enum(cases):
         if i % shard["mod"] == shard["rem"]:
@@ -506,6 +515,9 @@ def _signature(R, t, ctx, div):
         if c[0] in ("lit", "kb", "kbit"):
             kinds.append({"lit": "int", "kb": "const_bool", "kbit": "const_bit"}[c[0]])
             widths.append(None)
+        elif c[0] == "kv":
+            kinds.append("const_" + c[1])
+            widths.append(c[2])
         else:
             ty = R.stype(c)
             kinds.append(_kind_name(ty))
@@ -547,7 +559,70 @@ def _localize(case, t, ctx, div):
 
 
 # ----------------------------------------------------------------------------- check
+_FOLD_EXPR = {"add": "a + b", "sub": "a - b", "mul": "a * b", "truncdiv": "op.truncdiv(a, b)", "mod": "a % b",
+              "rem": "op.rem(a, b)", "eq": "a == b", "ne": "a != b", "lt": "a < b", "le": "a <= b", "gt": "a > b",
+              "ge": "a >= b", "concat": "a @ b", "and": "a & b", "or": "a | b", "xor": "a ^ b"}
+
+
+def _check_fold(cell):
+    """Python-level constant folding of `op` on two constant Signed / Unsigned objects of widths wa, wb for ALL
+    value pairs, against two's complement arithmetic on the extended operands with the documented result width."""
+    from cohdl import Signed, Unsigned, op as cop
+
+    o, kind, wa, wb = cell
+    out = Outcome()
+    T = {"s": Signed, "u": Unsigned}[kind]
+    code = compile(_FOLD_EXPR[o], f"<c02-fold:{o}>", "eval")
+    name = f"fold:{o}({kind}[{wa}],{kind}[{wb}])"
+    n_cmp = n_rej = n_skip = 0
+    seen = set()
+    wrel = "eq" if wa == wb else "lt" if wa < wb else "gt"
+    (la, ha), (lb, hb) = rv.value_range(kind, wa), rv.value_range(kind, wb)
+    for x in range(la, ha + 1):
+        for y in range(lb, hb + 1):
+            m = rv.apply(o, [rv.make(kind, wa, x), rv.make(kind, wb, y)])
+            if m is UNSPEC or m.value is None:
+                n_skip += 1
+                continue
+            try:
+                with contextlib.redirect_stdout(io.StringIO()):
+                    r = eval(code, {"a": T[wa](x), "b": T[wb](y), "op": cop, "__builtins__": {}})
+            except (KeyboardInterrupt, SystemExit):
+                raise
+            except Exception:  # noqa: BLE001 - a rejection by cohdl is never a violation
+                n_rej += 1
+                continue
+            obs = _observe_type(r)
+            if obs[0] != m.kind:
+                div, got = "kind", obs
+            elif obs[1] != m.width:
+                div, got = "width", obs
+            else:
+                if obs[0] == "bool":
+                    got = int(bool(r))
+                else:
+                    bits = str(r.bitvector)
+                    got = rv.wrap(obs[0], obs[1], int(bits, 2)) if set(bits) <= {"0", "1"} else bits
+                div = None if got == m.value else "value"
+            n_cmp += 1
+            if div and div not in seen:
+                seen.add(div)
+                out.add({"op": o, "kinds": [f"const_{kind}", f"const_{kind}"], "int_side": "none", "ctx": "python",
+                         "divergence": div, "wrel": wrel},
+                        f"{T.__name__}[{wa}]({x}) {_FOLD_EXPR[o]} {T.__name__}[{wb}]({y}) folds to {got}, documented {m}")
+    out.counters.update({"fold_values_compared": n_cmp, "fold_rejected": n_rej, "fold_model_undetermined": n_skip})
+    out.labels += [f"fold:{o}", "fold_level_python"]
+    out.status = "ok" if n_cmp else ("rejected" if n_rej else "unspecified")
+    out.nontrivial = n_cmp >= 2
+    out.identity = name
+    if n_cmp:
+        out.exhaustive_cell = name
+    return out
+
+
 def check(case):
+    if "fold" in case:
+        return _check_fold(case["fold"])
     out = Outcome()
     run = _Run(case)
     res = run.evaluate()
@@ -623,6 +698,8 @@ def check(case):
 
 
 def view(case):
+    if "fold" in case:
+        return {"fold": case["fold"]}
     R = G.Renderer(case)
     return {"ports": G.rv_key(case["ports"]), "exprs": [R.rx(t) for t in case["exprs"]],
             "valuations": "all" if G.total_bits(case) <= case.get("exh", 10) else "corners+drawn"}
